@@ -297,6 +297,28 @@ fn run(ctx: &mut Ctx) {
     if ctx.mine(job) {
         on_fresh_thread(ctx, region_pairs);
     }
+    // frames with algebraic structure with respect to the generator (a prefix that is itself a multiple of it,
+    // zero / one / 0x5A fill): the address is still the reference one, in every format and for every first byte
+    for &df in &FORMATS {
+        job += 1;
+        if !ctx.mine(job) {
+            continue;
+        }
+        on_fresh_thread(ctx, |ctx| {
+            let nbits = if df < 16 { 56 } else { 112 };
+            for low3 in 0..8u8 {
+                let first = ((df as u8) << 3) | low3;
+                for lead in [[first, 0x4C, 0xA2, 0xD6, 0x58, 0x0F, 0x82, 0xDD, 0xDE, 0xCF, 0x5C], [first, 0xF8, 0xBA, 0x93, 0x00, 0x12, 0x34, 0x56, 0x78, 0x9A, 0xBC], [first, 0, 0, 1, 0, 0, 0, 0, 0, 0, 0]] {
+                    for ap in [0u32, 0x4CA2D6] {
+                        for f in crate::frames::crc_structured(&lead, nbits, ap) {
+                            let want = ref_address(&f).unwrap_or(0);
+                            check_icao(ctx, &f, want, "get_icao:crc-structured");
+                        }
+                    }
+                }
+            }
+        });
+    }
     // (3) binding to get_message and to the reader seam (row key) at stride
     let cfg = Cfg::new(&[]);
     for &df in &FORMATS {
